@@ -3,7 +3,7 @@ import numpy as np
 from .. import core, gen
 from ..core import fl, arr, nat, CoqCases, judge
 
-IMPORTS = "Transfer"
+IMPORTS = "Transfer Constants"
 
 
 def _kinds(tier):
@@ -28,7 +28,7 @@ def stream_load_transfer(R, tier, seed):
                     F[:] = 0.0
                 outs, J, _ = core.run_comp(LoadTransfer(surface=surf), {"def_mesh": mesh, "sec_forces": F})
                 npx, npy = nx - 1, ny - 1
-                pre = "let mesh := a3 %s 3 %s in let F := a3 %s 3 %s in let w1 := @ofrac float Fops 25 100 in let w2 := %s in " % (
+                pre = "let mesh := a3 %s 3 %s in let F := a3 %s 3 %s in let w1 := @gen_lt_w1 float Fops in let w2 := %s in " % (
                     nat(ny), arr(mesh), nat(npy), arr(F), fl(w2))
                 e_out = "re (t2 %s 6 (lt_loads %s %s w1 w2 mesh F)) %s" % (nat(ny), nat(npx), nat(npy), arr(outs["loads"]))
                 e_JF = "re (t5 %s 6 %s %s 3 (fun j c i' j' d' => lt_loads %s %s w1 w2 mesh (delta3 i' j' d') j c)) %s" % (
@@ -130,7 +130,7 @@ def stream_mesh_point_forces(R, tier, seed):
         eJ = "re (t6 %s %s 3 %s %s 3 (fun i j d i' j' d' => mesh_point_forces %s %s le te (delta3 i' j' d') i j d)) %s" % (
             nat(nx), nat(ny), nat(nx - 1), nat(ny - 1), nat(nx - 1), nat(ny - 1), arr(J[("wing_mesh_point_forces", "wing_sec_forces")]))
         # the weights the conservation theorem needs: le = 0.375, te = 0.125 exactly
-        ew = "abs (le - @ofrac float Fops 375 1000) + abs (te - @ofrac float Fops 125 1000)"
+        ew = "abs (le - gen_mpf_le_wt) + abs (te - gen_mpf_te_wt)"
         cid = cc.add(pre + "[%s; %s; %s]" % (e, eJ, ew))
         desc = {"comp": "MeshPointForces", "nx": nx, "ny": ny, "le_wt": le, "te_wt": te}
         meta.append((cid, desc))
